@@ -157,6 +157,19 @@ pub fn convert_pest_error(error: pest::error::Error<Rule>, input: &str) -> Error
 /// that span instead.  This ensures the error marker covers something the
 /// user can actually see.
 fn compute_error_range(index: usize, input: &str) -> (usize, usize) {
+  // The token scan below works on bytes; widen the result to character
+  // boundaries so that a range never ends inside a multi-byte character
+  let (mut start, mut end) = compute_error_range_bytes(index, input);
+  while start > 0 && !input.is_char_boundary(start) {
+    start -= 1;
+  }
+  while end < input.len() && !input.is_char_boundary(end) {
+    end += 1;
+  }
+  (start, end)
+}
+
+fn compute_error_range_bytes(index: usize, input: &str) -> (usize, usize) {
   let bytes = input.as_bytes();
 
   // Try forward first: if there is a token starting at `index`, use it.
